@@ -2,7 +2,7 @@
 import z3
 from .base import *
 from .world import world_of, EVENT
-from .buffer import _add_event_ens, obs_ok
+from .buffer import _add_event_ens, obs_ok, _add_event_ghost, events_inv, unlogged
 from .cluster import CV
 from .buffer import hot, cold
 
@@ -23,14 +23,18 @@ REG.contract('Observation.is_finished', params={'current_time': 'num', 'telescop
 
 # ---- Telescope -------------------------------------------------------------------------------------------------------------
 def telescope_inv(v, sv):
-    return [('C08-array-use-within-the-telescope-total', v.telescope_use.t <= v.total_arrays.t),
-            ('observations-are-objects', Q([('o', I)], lambda o: z3.Implies(v.observations.count(o) > 0, o > 0)))]
+    H = lambda f, o: z3.Select(sv.heap('Observation', f), o)
+    return [('every-observation-has-a-pipeline', Q([('o', I)], lambda o: z3.Implies(v.observations.count(o) > 0, z3.And(
+        z3.Select(v.pipelines.keys, H('name', o)), z3.Select(v.pipelines.vals, H('name', o)) > 0, H('demand', o) >= 0)))),
+            ('C08-array-use-within-the-telescope-total', v.telescope_use.t <= v.total_arrays.t),
+            ('observations-are-objects', Q([('o', I)], lambda o: z3.Implies(v.observations.count(o) > 0, o > 0)))] + events_inv('instrument')(v, sv)
 
 
 REG.invariants['Telescope'] = telescope_inv
 
 REG.contract('Telescope._add_event', world=TW, params={'observation': 'Observation', 'resource': 'str', 'event': 'str'},
-             ensures=_add_event_ens('instrument'), modifies=['self.events'], props=['C13'])
+             ensures=_add_event_ens('instrument'), ghost=_add_event_ghost('instrument'), modifies=['self.events', 'ghost:unlogged_instrument'],
+             props=['C13'])
 REG.contract('Telescope.begin_observation', world=TW, params={'observation': 'Observation'},
              requires=lambda c: [('C08-fits-the-free-arrays', c.o.observation.demand.t <= c.o.self.total_arrays.t - c.o.self.telescope_use.t),
                                  ('demand-nonneg', c.o.observation.demand.t >= 0)],
@@ -85,7 +89,8 @@ def _trun_inv(c):
     s = n.self
     return [('C08-array-use-within-the-telescope-total', s.telescope_use.t <= s.total_arrays.t),
             ('observations-are-objects', Q([('o', I)], lambda o: z3.Implies(s.observations.count(o) > 0, o > 0))),
-            ('observation-list-unchanged', z3.And(s.observations.cnt == c.x['pre'].self.observations.cnt))]
+            ('observation-list-unchanged', z3.And(s.observations.cnt == c.x['pre'].self.observations.cnt)),
+            ('C13-every-unlogged-record-is-still-in-the-list', z3.And(unlogged(n, 'instrument') >= 0, unlogged(n, 'instrument') <= s.events.n))]
 
 
 def _trun_body(c):
@@ -148,11 +153,37 @@ REG.contract('Telescope.run', world=TW, locals_types={},
              requires=_trun_req,
              yields={0: lambda c: _trun_req(Ctx(c.eng, c.n, c.n)) + [('one-step-wait', c.n['_ydelay'].t == 1)]},
              raises={'RuntimeError': dict(when=None, unchanged=False)},
-             modifies=['self.events', 'self.delayed', 'self.telescope_use', 'self.telescope_status', 'self.scheduler.provision_ingest',
+             modifies=['self.events', 'ghost:unlogged_instrument', 'self.delayed', 'self.telescope_use', 'self.telescope_status', 'self.scheduler.provision_ingest',
                        'heap:Observation.ast', 'heap:Observation.status'],
              props=['C08', 'C13'])
 REG.loop('Telescope.run', 1, inv=_trun_inv, body=_trun_body,
          modifies_locals=['observation', 'capacity', 'ret', 'process'],
-         modifies=['self.events', 'self.telescope_use', 'self.telescope_status', 'self.scheduler.provision_ingest',
+         modifies=['self.events', 'ghost:unlogged_instrument', 'self.telescope_use', 'self.telescope_status', 'self.scheduler.provision_ingest',
                    'heap:Observation.ast', 'heap:Observation.status'],
          props=['C08', 'C13'])
+
+
+# ---- counts reported to the monitor (C12) ------------------------------------------------------------------------------------
+def _count_status(c, sv, tel, member):
+    st = sv.heap('Observation', 'status')
+    return c.eng.count_where(tel.observations.val, lambda x: z3.Select(st, x) == RS(member))
+
+
+REG.contract('Telescope.observations_waiting', world=TW,
+             ensures=lambda c: [('C12-number-of-waiting-observations', c.result.t == z3.ToReal(_count_status(c, c.o, c.o.self, 'WAITING')))],
+             result='num', props=['C12'])
+REG.contract('Telescope.observations_finished', world=TW,
+             ensures=lambda c: [('C12-number-of-finished-observations', c.result.t == z3.ToReal(_count_status(c, c.o, c.o.self, 'FINISHED')))],
+             result='num', props=['C12'])
+REG.contract('Telescope._calc_observation_delay', world=TW, ensures=lambda c: [], result='num', props=['C12'])
+REG.loop('Telescope._calc_observation_delay', 0, inv=lambda c: [], modifies_locals=['observation', 'cum_delay'], props=['C12'])
+
+
+def _tel_to_df(c):
+    r = c.result
+    return [('C12-waiting-observations', r['observations_waiting'].t == z3.ToReal(_count_status(c, c.o, c.o.self, 'WAITING'))),
+            ('C12-finished-observations', r['observations_finished'].t == z3.ToReal(_count_status(c, c.o, c.o.self, 'FINISHED')))]
+
+
+REG.contract('Telescope.to_df', world=TW, ensures=_tel_to_df, props=['C12'],
+             result='frame:observations_waiting=num;observations_finished=num;observations_delayed=num')
